@@ -356,6 +356,25 @@ func RunCuts(out string) {
 				}
 			}
 		}
+		// the other length fields of the member header: XLEN (bytes 10-11) and the subfield length
+		// SLEN (bytes 14-15) take every small value, so that the extra field ends before, inside and
+		// after the BSIZE bytes
+		for i, m := range f.Members {
+			if !small && i > 1 {
+				break
+			}
+			for _, at := range []int64{10, 11, 14, 15} {
+				for v := 0; v <= 12; v++ {
+					if f.Bytes[m.Base+at] == byte(v) {
+						continue
+					}
+					s := append([]byte(nil), f.Bytes...)
+					s[m.Base+at] = byte(v)
+					rd := []int{1, 2}[(i+v+int(at))%2]
+					bgz.RunReader(t, bgz.RScenario{Class: "hdrlen", File: f, Stream: s, Faultable: true, Altered: true, CutLen: -1, RD: rd, Ops: seqOps(f.Total, 6)})
+				}
+			}
+		}
 		dense := len(f.Members) > 0 && f.Members[0].Len == 65536
 		for p := 0; p < len(f.Bytes); p++ {
 			if !small && !near(p) && p%499 != 0 && !(dense && p%61 == 0) {
